@@ -588,6 +588,44 @@ def real_run(rng, job, variant, n_cmds):
     return lines, eng, list(eng.simulation_entries()), calc
 
 
+def real_session(rng, job, variant, n_cmds, rounds=3):
+    """An editing session on ONE real engine: run a plan that contains console lines, read the report, then `rounds` times:
+    roll back to a random operation index (often right after a console entry) or reload a prefix of the logs, read the
+    report, execute a few other commands, read the report again.  Yields (label, lines, engine, entries) after every
+    reading; `lines` are the surviving commands (the plan a fresh engine would have to run to be in the same state)."""
+    from lib import simenv
+    lines = []
+    while len(lines) < n_cmds:          # console-rich: the operation index and the play index drift apart
+        lines.append(simenv.random_command_text(rng, job, variant, console=True))
+        if rng.random() < 0.35:
+            lines.append(rng.choice(simenv.DEBUGS))
+    eng = simenv.make_engine(job, variant)
+    for c in simenv.parse_commands(lines):
+        eng.exec(c)
+    yield "initial run", list(lines), eng, list(eng.simulation_entries())
+    for r in range(rounds):
+        n_ops = len(list(eng.operation_logs()))
+        if n_ops < 2:
+            break
+        ops = list(eng.operation_logs())
+        consoles = [i for i, o in enumerate(ops) if not o.playlogs and i > 0]
+        idx = rng.choice(consoles) if consoles and rng.random() < 0.6 else rng.randrange(0, n_ops)
+        if rng.random() < 0.75:
+            eng.rollback(idx)
+            how = "rollback(%d)" % idx
+        else:
+            eng.reload(ops[:idx + 1])
+            how = "reload(first %d logs)" % (idx + 1)
+        # operation log 0 is the initial (empty-command) entry: operation i (i >= 1) is command i-1
+        lines = lines[:idx]
+        yield "after %s" % how, list(lines), eng, list(eng.simulation_entries())
+        more = [simenv.random_command_text(rng, job, variant, console=True) for _ in range(rng.randint(1, 6))]
+        for c in simenv.parse_commands(more):
+            eng.exec(c)
+        lines = lines + more
+        yield "after %s and %d more commands" % (how, len(more)), list(lines), eng, list(eng.simulation_entries())
+
+
 def real_run_violation(eng, entries, calc, Ls):
     """The property on a real run, up to rounding noise (floats).  Returns (violation | None, stats)."""
     from simaple.simulate.report.feature import DamageShareFeature, MaximumDealingIntervalFeature
@@ -598,6 +636,9 @@ def real_run_violation(eng, entries, calc, Ls):
     if len(playlogs) != len(entries):
         return {"what": "simulation_entries() does not yield one entry per play", "expected": len(playlogs), "observed": len(entries)}, stats
     for i, (pl, en) in enumerate(zip(playlogs, entries)):
+        if en.clock != pl.clock or en.action != pl.action:
+            return {"what": "report entry %d does not describe play %d of the history (clock/action differ)" % (i, i), "play": i,
+                    "expected": {"clock": pl.clock, "action": pl.action}, "observed": {"clock": en.clock, "action": en.action}}, stats
         buff = eng.get_viewer(pl)("buff")
         want = []
         for ev in pl.events:
